@@ -32,6 +32,13 @@ def strategy_(draw, tier):
     spec = draw(sched.sched_specs(quiet=False, adaptive=True, force_last=True,
                                   precisions=(None, None, None, 1, 2),
                                   deep=tier == 'thorough'))
+    if draw(st.integers(0, 5)) == 0:
+        # a zero-length forced call at the end ("flush"): whoever is behind
+        # the clock is handed the remainder
+        if spec['calls'][-1]['op'] == 'run_for':
+            spec['calls'][-1]['force'] = draw(st.booleans())
+        spec['calls'].append({'op': draw(st.sampled_from(['run_for', 'update'])),
+                              'interval': 0, 'force': True})
     spec['clock'] = None
     if draw(st.booleans()):
         unit = 0.25 if spec['precision'] is None else 10 ** -spec['precision']
@@ -145,6 +152,8 @@ def classify(spec, res, ivs):
         res.label('clock')
     if len(spec['calls']) >= 2:
         res.label('chunked')
+    if spec['calls'][-1]['interval'] == 0:
+        res.label('zero_length_forced_call')
     if spec['precision'] is not None:
         res.label('precision.%d' % spec['precision'])
     trunc = ivs is not None and any(iv['truncated'] for l in ivs.values()
